@@ -40,8 +40,13 @@ def check_block_header_proof(root_cell: "Cell", block_hash: bytes, store_state_h
     if root_hash != block_hash:
         raise ProofError('Block header proof error: hashes unmatch')
     if store_state_hash:
-        state_update = root_cell[2][1]
-        return state_update.get_hash(0)
+        state_update = root_cell[2]
+        state_hash = state_update[1].get_hash(0)
+        # the block hash only commits to the Merkle update cell's own data and to its children at level 1,
+        # so the new state hash must be the one stored in the Merkle update cell itself
+        if state_update.type_ != CellTypes.merkle_update or state_update.data[33:65] != state_hash:
+            raise ProofError('Block header proof error: state update does not commit to the state hash')
+        return state_hash
     return
 
 
